@@ -27,7 +27,7 @@ def main():
         "(2) angles: gon2deg(k*0.0001 gon, k=0.." + kgon + " gon) at precisions 0..6 (all four sign modes and negatives on every " + ("" if ck.tier == "thorough" else "8th ") + "k), 3024 values with seconds 60-j*0.1*10^-p, specials: every produced string has 0<=m<60, 0<=s<60, prec decimals, is accepted by deg2gon and returns the value within half a unit of the last printed digit; "
         "canonical strings d-mm-ss[.5] (6 d x 60 m x 60 s) -> deg2gon -> gon2deg reproduce themselves; rad2dms -> dms2rad on the same k grid in radians within 1e-9 rad; dms2rad of all literals d.mmss (5 d x 60 x 60). "
         "(3) literals: every string of length <= 6 over {0,1,.,-,+,e,E,space,x} through IsFloat and IsInteger against the xs:double / xs:integer lexical grammar (manual: 'decimal numbers', XSD types), every string of length <= 7 through deg2gon against 'sign? D+-D+-D+[.D+]' (manual section on degrees); forms the manual leaves open (spaces after the sign, exponent or bare trailing point in seconds) are counted, not judged. "
-        "(4) bearing/distance: all 625 ordered pairs of a 5x5 lattice x 3 offsets x 3 spacings: bearing in [0,2pi), equals atan2 reference, bearing(b,a)=bearing(a,b)+-pi, distance symmetric and exact to 4e-16, d*(cos,sin)=(dx,dy), point and coordinate overloads agree, coincident points give (0,0). "
+        "(4) bearing/distance: all 625 ordered pairs of a 5x5 lattice x 3 offsets x 6 spacings (10 um, 0.1 mm, 1 mm, 1 cm, 100 m, 7.9 km): bearing in [0,2pi), equals atan2 reference, bearing(b,a)=bearing(a,b)+-pi, distance symmetric and exact to 4e-16, d*(cos,sin)=(dx,dy), point and coordinate overloads agree, coincident points give (0,0). "
         "evaluation = one case through all its oracles, non-trivial = distinct grid values / valid literals / non-coincident pairs",
         assumptions=["values between grid points, strings over other characters or longer than 6 (7) are not covered",
                      "the lattice has dy exactly 0 or |dy| > 1e-9|dx|, so the half-open bearing interval is decidable in floating point",
